@@ -48,7 +48,7 @@ class ExactAlgorithmCplexForPaperOptim1(ExactAlgorithmCplex):
             cost_to_place_after = cost_matrix[el_1][el_2][1]
             calc: float = cost_to_place_before + cost_to_place_after - 2 * cost_to_tie
             # if the test fails, then the optimization cannot be used
-            if calc > ExactAlgorithmCplex._PRECISION_THRESHOLD:
+            if calc > 0:
                 can_have_no_ties = False
                 break
 
